@@ -26,26 +26,28 @@ type Item struct {
 
 // sctx is the state of one generated session.
 type sctx struct {
-	r        *rand.Rand
-	n        int
-	feat     string   // the one avoid-set construct this session carries ("" = none)
-	used     bool     // the feature has been placed
-	flavors  []string // names defined so far (their defining forms are in defs)
-	defs     map[string][]string
-	funs     []string
-	exports  bool   // packages may export names (def mode)
-	plain    bool   // no quoted-data or computed defaults (the item's instances are load-formed)
-	override string // the name the next item has to take (redefinition)
-	capture  bool   // remember the next generated name
-	captured string
-	fl       map[string]*flInfo
-	last     string // the most derived flavor of the session's chain
-	placed   string // feature placed by a helper on the item being built
-	nflavor  int
+	r          *rand.Rand
+	n          int
+	feat       string   // the one avoid-set construct this session carries ("" = none)
+	used       bool     // the feature has been placed
+	flavors    []string // names defined so far (their defining forms are in defs)
+	defs       map[string][]string
+	funs       []string
+	exports    bool   // packages may export names (def mode)
+	plain      bool   // no quoted-data or computed defaults (the item's instances are load-formed)
+	redefining bool   // the item being built replaces an earlier definition of the same name
+	final      bool   // the item being built is the last version of its name
+	override   string // the name the next item has to take (redefinition)
+	capture    bool   // remember the next generated name
+	captured   string
+	fl         map[string]*flInfo
+	last       string // the most derived flavor of the session's chain
+	placed     string // feature placed by a helper on the item being built
+	nflavor    int
 }
 
 func newSctx(r *rand.Rand, feat string) *sctx {
-	return &sctx{r: r, feat: feat, defs: map[string][]string{}, fl: map[string]*flInfo{}}
+	return &sctx{r: r, feat: feat, final: true, defs: map[string][]string{}, fl: map[string]*flInfo{}}
 }
 
 var nameWords = []string{"alpha", "beta", "gamma", "delta", "omega", "x", "tmp", "counter", "a-quite-long-descriptive-name", "zz"}
@@ -74,20 +76,28 @@ func (s *sctx) name(prefix string) string {
 func (s *sctx) redefined(times int, build func() Item) Item {
 	s.capture = true
 	prevLast, prevN := s.last, s.nflavor
+	s.final = times == 0
 	it := build()
 	s.capture = false
 	inner := s.captured
 	for k := 0; k < times && inner != ""; k++ {
 		s.override = inner
+		s.redefining = true
+		s.final = k == times-1
 		s.last, s.nflavor = prevLast, prevN
 		nx := build()
 		s.override = ""
+		s.redefining = false
 		it.Forms = append(it.Forms, nx.Forms...)
 		it.Probes, it.Obj, it.Info, it.Bind = nx.Probes, nx.Obj, nx.Info, nx.Bind
 		if it.Feat == "" {
 			it.Feat = nx.Feat
 		}
 		it.Redef++
+	}
+	s.final = true
+	if fi := s.fl[it.Name]; fi != nil && it.Feat != "" {
+		fi.capable = false
 	}
 	return it
 }
@@ -142,6 +152,10 @@ func (s *sctx) varItem() Item {
 	r := s.r
 	name := "*" + s.name("v-") + "*"
 	head := fw.Pick(r, []string{"defvar", "defparameter"})
+	if s.redefining {
+		// defvar would leave the value alone
+		head = "defparameter"
+	}
 	kind, val := cleanVarValue(r)
 	it := Item{Kind: "var", Name: name}
 	switch {
@@ -322,8 +336,12 @@ type flInfo struct {
 // any ancestor or a new one.
 func (s *sctx) flavorItem(withInstance bool, role string) Item {
 	r := s.r
+	redefining := s.redefining
 	name := s.name("fl-")
 	it := Item{Kind: "flavor", Name: name}
+	if !s.final {
+		withInstance = false
+	}
 	info := &flInfo{hist: map[string][]string{}}
 	var parent *flInfo
 	var parents []string
@@ -500,6 +518,10 @@ func (s *sctx) flavorItem(withInstance bool, role string) Item {
 	}
 	def += ")"
 	it.Forms = []string{def}
+	if redefining {
+		// slip refuses to define a flavor that exists: it is removed first
+		it.Forms = []string{fmt.Sprintf("(undefflavor '%s)", name), def}
+	}
 	it.Obj = fmt.Sprintf("(find-flavor '%s)", name)
 	// probes
 	args := ""
@@ -557,6 +579,11 @@ func (s *sctx) flavorItem(withInstance bool, role string) Item {
 		iv := "*" + s.name("inst-") + "*"
 		it.Forms = append(it.Forms, fmt.Sprintf("(defvar %s %s)", iv, mk))
 		it.Probes = append(it.Probes, fmt.Sprintf("(list %s)", strings.ReplaceAll(strings.Join(gets, " "), "slot-value i ", "slot-value "+iv+" ")))
+	}
+	if it.Feat != "" {
+		// a flavor carrying an avoid-set construct gets no children: their
+		// failures would be the construct's
+		info.capable = false
 	}
 	s.flavors = append(s.flavors, name)
 	s.defs[name] = append(append([]string{}, it.Pre...), def)
